@@ -164,6 +164,14 @@ def rule_age(ctx, F):
                         ok = ca[0] == "call" and (ca[1] or "").endswith("Instant::now")
                         ctx.ob(R, b, "Value::new stamps now()", ok, "Value::new must set created_at = Instant::now()", b.where(bi))
                     else:
+                        vf = deep_strip(b.term_of_operand(ops[fields.index("valid_for")]))
+                        capped = any(x[0] == "call" and re.search(r"cmp::(Ord::)?min(::<.*>)?$|::min$", x[1] or "") and
+                                     any(y[0] == "field" and y[2] == "valid_for" for a_ in x[3] for y in walk(deep_strip(a_)))
+                                     for x in walk(vf))
+                        ctx.ob(R, b, "derived value does not outlive the entry it was derived from", capped,
+                               "%s gives the derived entry a validity computed from the derived (stripped) message alone (%s): with "
+                               "the record of smallest TTL stripped away it is served after the upstream response's smallest TTL has "
+                               "elapsed -- the validity has to be min(original.valid_for, ..)" % (p.split("::")[-1], show(vf)[:80]), b.where(bi))
                         ok = ca[0] == "field" and ca[2] == "created_at"
                         ctx.ob(R, b, "derived value inherits created_at", ok,
                                "%s builds a cache entry whose created_at is %s instead of the original entry's: the "
